@@ -10,13 +10,22 @@ through the writing transaction / block cache), `publish` (after commit, lookups
 value — under no eviction and within maxHisDepth), `separation` (the reference implementation under arbitrary in-place
 client mutations of values handed in or out is observationally equal to the value-semantics cache), `clone_facts`
 (every store into / return out of a cache map in core/statecache is a Clone, a tombstone, a delegation or internal).
-Only checked by correspondence (suite c07): that `Clone` of the real value types (util.LeafNode, FullNode,
-ExtensionNode, ValueNode: encode/decode) is a deep copy.
+`node_clone_is_copy`, `separation_nodes`: for the real value types the clone is `CreateNode(Encode(n))`; on the codec
+model (`Verif.Codec`, tied to the Go encoder/decoder by C14's correspondence) that round trip returns the node itself for
+every node the decoder accepts and every well-formed node, so the reference implementation that really RUNS the clone
+function at the boundary is observationally the value cache as well.
+What remains Go-level and is NOT a Lean statement: that the object `CreateNode` builds shares no memory with the
+original (the decoder allocates fresh byte slices / child arrays rather than aliasing its input buffer, and no `Clone`
+method patches a field of the original into the copy, e.g. a FullNode's value object). The codec model has values, not
+pointers, so it cannot express that. It is checked by correspondence only: suite c07 overwrites in place every value it
+handed to a `Set` and every value a `Get` returned — LeafNode, FullNode with and without a value, ExtensionNode,
+ValueNode — and compares all later lookups with the model.
 -/
 import Verif.Lemmas.StateCachePrivacy
 import Verif.Lemmas.StateCachePublish
 import Verif.Lemmas.StateCacheHeap
 import Verif.Lemmas.StateCacheRecommit
+import Verif.Lemmas.StateCacheClone
 import Verif.Gen.StateCacheFacts
 namespace Verif.Props.C07
 open Verif.SC
@@ -149,6 +158,34 @@ theorem separation_invariant (hs : HSys H K B C) (hw : HWF hs) (hop : HOp H K B 
   | op o => exact absurd rfl (hno o)
   | new c => exact h2
   | mutate r c => exact h2
+
+/-- `node_clone_is_copy`: `Clone()` of a trie node (`CreateNode(Encode(n))`, `cloneR = decode ∘ encode` on the codec
+    model) returns a node EQUAL to the original — type, version, origin, path / prefix, child keys, value bytes — whenever
+    the original is something the decoder can produce (`decode bs = ok r`: every node read from a store or received from
+    another `Clone`) or is well formed (`ReprWF`: hex-digit paths, 16 child slots of 32-byte keys, non-empty value,
+    64-bit version / origin: every node the trie code builds); and the clone is again of that kind, so clones of clones
+    are equal too. At the model level this is all "shares nothing observable" can mean: a `Repr` is a value, the clone is
+    a second value with the same content, and overwriting one (`HOp.mutate`) does not touch the other. -/
+theorem node_clone_is_copy (r : Verif.Codec.Repr) :
+    ((∃ bs, Verif.Codec.decode bs = .ok r) → Verif.Cache.cloneR r = r) ∧
+    (Verif.Codec.ReprWF r → Verif.Cache.cloneR r = r) ∧
+    (Verif.Codec.ReprOK r → Verif.Cache.cloneR r = r ∧ Verif.Codec.ReprOK (Verif.Cache.cloneR r)) :=
+  ⟨fun ⟨_, h⟩ => Verif.Cache.cloneR_decoded h,
+   fun h => Verif.Cache.cloneR_ok (Verif.Codec.reprOK_of_wf r h),
+   fun h => ⟨Verif.Cache.cloneR_ok h, by rw [Verif.Cache.cloneR_ok h]; exact h⟩⟩
+
+/-- `separation_nodes`: `separation` for trie nodes with the clone function actually executed. The reference
+    implementation `HSys.stepC cloneR` stores `cloneR (content of the argument)` on `Set` and hands out
+    `cloneR (stored content)` on a hit. If every content the client ever writes — at allocation or by in-place mutation,
+    before or after handing the reference in, after receiving it — is a node the decoder accepts or a well-formed node
+    (`ReprOK`), the dereferenced outputs are exactly those of the value-semantics cache on the contents at call time. -/
+theorem separation_nodes (capK maxDepth : Nat) (dflt : Verif.Codec.Repr) (hd : Verif.Codec.ReprOK dflt)
+    (ops : List (HOp H K B Verif.Codec.Repr)) (hin : ∀ hop ∈ ops, hop.InP Verif.Codec.ReprOK) :
+    let hs : HSys H K B Verif.Codec.Repr := HSys.new capK maxDepth dflt
+    (HSys.tracesC Verif.Cache.cloneR hs hs.abs ops).1 = (HSys.tracesC Verif.Cache.cloneR hs hs.abs ops).2 := by
+  intro hs
+  rw [HSys.tracesC_eq Verif.Cache.cloneR Verif.Codec.ReprOK (fun c h => Verif.Cache.cloneR_ok h) hs (fun _ => hd) _ ops hin]
+  exact HSys.traces_eq _ (HWF.init capK maxDepth dflt) ops
 
 /-- `clone_facts`: in the tree under test, every statement of core/statecache that stores a value into a cache map or
     LRU and every `return value, true` of a Get method is classified as a `Clone()`, a delegation to another layer's Get,
